@@ -201,3 +201,87 @@ fn k_exe_4p_completion_panics_at_the_bound() {
     std::mem::forget(l);
     std::mem::forget(z);
 }
+
+/// What the stubbed `complete_cycle_query` reports for the head's execution (K-EXE-5): durability / changed_at of
+/// the frame, fully tracked, no edges.
+pub(crate) static mut CCQ_STAMP: (u8, usize) = (0, 1);
+pub(crate) fn stub_complete_cycle_query_head(_zalsa: &Zalsa, active_query: ActiveQueryGuard<'_>, iteration: IterationStamp) -> CompletedQuery {
+    // SAFETY: single-threaded harness
+    let (d, c) = unsafe {
+        CCQ_ITER = Some(iteration);
+        CCQ_STAMP
+    };
+    std::mem::forget(active_query);
+    CompletedQuery { revisions: crate::zalsa_local::verif::revs(vk::durability_of(d), Revision::from(c), false, crate::zalsa_local::verif::empty_derived()), stale_tracked_structs: Vec::new() }
+}
+
+//@ob id=K-EXE-5 kind=C props=C15 timeout=1200 fn=try_complete_cycle_head flags=stubs,noreplay
+//@ pre: the outermost head of a fixpoint cycle (its only cycle head is itself) finishes an iteration at any stamp with iteration 0..=199; its value converged or not, its durability / changed_at equal to the last provisional memo's or not (all symbolic); `complete_cycle_query` is stubbed
+//@ post: converged (value and metadata) => the memo is final and the cycle ends; otherwise the head asks for **another iteration with stamp iteration + 1 of the same epoch** (never beyond 200) and its memo stays provisional with itself as head at that stamp
+#[cfg(kani)]
+#[kani::proof]
+#[kani::unwind(4)]
+#[kani::stub(crate::function::execute::complete_cycle_query, stub_complete_cycle_query_head)]
+fn k_exe_5_head_iterates_or_finalizes() {
+    let (i, e): (u8, u8) = (kani::any(), kani::any());
+    kani::assume(i < 200);
+    let (z, l, it) = participant_world(i, e);
+    let me = vk::key(2, 1);
+    let frame = l.push_query(me);
+    let mut guard = crate::function::sync::verif::fake_guard(&z, &l, me.ingredient_index(), me.key_index());
+    let (ld, lc) = (vk::any_durability(), vk::any_revision());
+    let last = crate::zalsa_local::verif::revs(ld, lc, false, crate::zalsa_local::verif::empty_derived());
+    let (nd, nc) = (vk::any_durability(), vk::any_revision());
+    // SAFETY: single-threaded harness
+    unsafe { CCQ_STAMP = (nd.index() as u8, nc.as_usize()) };
+    let value_converged: bool = kani::any();
+    let r = try_complete_cycle_head(frame, &mut guard, CycleHeads::initial(me, it), &last, None, it, it, value_converged);
+    let converged = value_converged && ld == nd && lc == nc;
+    match r {
+        Ok(cq) => {
+            assert!(converged);
+            assert!(cq.revisions.verified_final.load(std::sync::atomic::Ordering::Relaxed));
+            std::mem::forget(cq);
+        }
+        Err((cq, next)) => {
+            assert!(!converged);
+            assert!(next.iteration() == i + 1 && next.iteration() <= 200 && next.cancellation_count() == e);
+            assert!(!cq.revisions.verified_final.load(std::sync::atomic::Ordering::Relaxed));
+            assert!(cq.revisions.iteration() == next);
+            std::mem::forget(cq);
+        }
+    }
+    kani::cover!(converged, "convergence reachable");
+    kani::cover!(!converged && i == 199, "last permitted iteration");
+    kani::cover!(true, "end-of-harness reachable");
+    std::mem::forget(last);
+    std::mem::forget(guard);
+    std::mem::forget(l);
+    std::mem::forget(z);
+}
+
+//@ob id=K-EXE-5p kind=C props=C15 timeout=1200 fn=try_complete_cycle_head flags=stubs,noreplay,should_panic
+//@ pre: as K-EXE-5 at iteration 200, not converged
+//@ post: panics with "too many cycle iterations" as the only failure - a head whose values never stabilise is stopped after at most 200 iterations
+//@ panic: too many cycle iterations
+#[cfg(kani)]
+#[kani::proof]
+#[kani::unwind(4)]
+#[kani::should_panic]
+#[kani::stub(crate::function::execute::complete_cycle_query, stub_complete_cycle_query_head)]
+fn k_exe_5p_head_panics_at_the_bound() {
+    let e: u8 = kani::any();
+    let (z, l, it) = participant_world(200, e);
+    let me = vk::key(2, 1);
+    let frame = l.push_query(me);
+    let mut guard = crate::function::sync::verif::fake_guard(&z, &l, me.ingredient_index(), me.key_index());
+    let last = crate::zalsa_local::verif::revs(Durability::LOW, Revision::start(), false, crate::zalsa_local::verif::empty_derived());
+    // SAFETY: single-threaded harness
+    unsafe { CCQ_STAMP = (0, 1) };
+    let r = try_complete_cycle_head(frame, &mut guard, CycleHeads::initial(me, it), &last, None, it, it, false);
+    std::mem::forget(r);
+    std::mem::forget(last);
+    std::mem::forget(guard);
+    std::mem::forget(l);
+    std::mem::forget(z);
+}
